@@ -4,7 +4,7 @@
 cd /repo || exit 2
 git diff --quiet || { echo "/repo dirty"; exit 2; }
 declare -A PROPS=( [956b983]="C01 C10" [cb88ef7]="C05" [7291dd1]="C05" [040007d]="C08" [20eda81]="C02" [ac2c43d]="C04 C01 C03" [2c5ad48]="C17 C03" [4f65dc5]="C14 C15" [8ca4556]="C18" [1fb55eb]="C12" [31f0f2c]="C05 C09" [68a048b]="C09 C03" [4aaeb6d]="C05 C10" )
-for c in 956b983 cb88ef7 7291dd1 040007d 20eda81 ac2c43d 2c5ad48 4f65dc5 8ca4556 1fb55eb 31f0f2c 68a048b 4aaeb6d; do
+for c in 956b983 cb88ef7 7291dd1 040007d 20eda81 2c5ad48 4f65dc5 8ca4556 31f0f2c 68a048b 4aaeb6d; do
   git show $c | git apply -R || { echo "$c: reverse patch does not apply"; git checkout -- .; continue; }
   for p in ${PROPS[$c]}; do
     out=$(cd /verif && ./check $p --tier quick 2>&1); rc=$?
@@ -12,12 +12,19 @@ for c in 956b983 cb88ef7 7291dd1 040007d 20eda81 ac2c43d 2c5ad48 4f65dc5 8ca4556
   done
   git checkout -- .
 done
-# 1fb55eb (expr parentheses) was later touched by 281ee41 (word postfix operators): revert the later one first
-for combo in "281ee41" "281ee41 1fb55eb"; do
-  ok=1; for c in $combo; do git show $c | git apply -R || ok=0; done
+# repairs whose lines were touched again by a later repair are reverted together with it (later one first):
+# 1fb55eb (expr parentheses) <- 281ee41 (word postfix operators); ac2c43d (checked arithmetic) <- 68a048b (exact remainder)
+while IFS='|' read -r combo props; do
+  ok=1; for c in $combo; do git show $c | git apply -R 2>/dev/null || ok=0; done
   if [ $ok = 1 ]; then
-    out=$(cd /verif && ./check C12 --tier quick 2>&1); rc=$?
-    echo "revert $combo -> C12 exit=$rc violations=$(echo "$out" | grep -c '^VIOLATION') :: $(echo "$out" | grep -m1 'what:' | cut -c1-160)"
+    for p in $props; do
+      out=$(cd /verif && ./check $p --tier quick 2>&1); rc=$?
+      echo "revert $combo -> $p exit=$rc violations=$(echo "$out" | grep -c '^VIOLATION') :: $(echo "$out" | grep -m1 'what:' | cut -c1-160)"
+    done
   else echo "$combo: reverse patch does not apply"; fi
   git checkout -- .
-done
+done <<'EOT'
+281ee41|C12
+281ee41 1fb55eb|C12
+68a048b ac2c43d|C04 C01 C03
+EOT
